@@ -244,6 +244,65 @@ pub fn emitted_conforms(v: &V) -> Verdict {
     conforms(&hr::from_serde(&tree), v, "$").map_err(|d| ("d1-not-hayson".to_string(), format!("{d}; text={text}")))
 }
 
+/// The typed entry points (`from_str::<Dict>`, `Option<DateTime>`, `Vec<Number>` element,
+/// `from_value::<T>` — which presents object members in sorted order) decode a document that
+/// denotes a value of that kind to the same value as the generic `Value` entry point.
+pub fn typed_decode_agrees(text: &str, v: &V, full: bool) -> Verdict {
+    use libhaystack::val::*;
+    let tree: serde_json::Value = match serde_json::from_str(text) {
+        Ok(t) => t,
+        Err(_) => return Ok(()),
+    };
+    let listed = format!("[{text}]");
+    macro_rules! typed {
+        ($T:ty, $wrap:expr) => {{
+            let wrap = $wrap;
+            let mut outs: Vec<(&str, Result<Result<Value, String>, String>)> = vec![];
+            outs.push(("from_str::<T>", guarded(|| serde_json::from_str::<$T>(text).map(|x| wrap(x)).map_err(|e| e.to_string()))));
+            outs.push(("from_value::<T>", guarded(|| serde_json::from_value::<$T>(tree.clone()).map(|x| wrap(x)).map_err(|e| e.to_string()))));
+            if full {
+            outs.push(("from_str::<Option<T>>", guarded(|| serde_json::from_str::<Option<$T>>(text).map_err(|e| e.to_string()).and_then(|x| x.map(|x| wrap(x)).ok_or_else(|| "None".to_string())))));
+            // (the extra list level must stay inside serde_json's recursion limit of 128)
+            if u::json_depth(v) < 120 {
+            outs.push(("from_str::<Vec<T>>", guarded(|| serde_json::from_str::<Vec<$T>>(&listed).map_err(|e| e.to_string()).and_then(|mut x| if x.len() == 1 { Ok(wrap(x.remove(0))) } else { Err(format!("{} elements", x.len())) }))));
+            }
+            outs.push(("from_slice::<T>", guarded(|| serde_json::from_slice::<$T>(text.as_bytes()).map(|x| wrap(x)).map_err(|e| e.to_string()))));
+            outs.push(("from_reader::<T>", guarded(|| serde_json::from_reader::<_, $T>(std::io::Cursor::new(text.as_bytes())).map(|x| wrap(x)).map_err(|e| e.to_string()))));
+            }
+            outs
+        }};
+    }
+    let outs = match v {
+        V::Marker => typed!(Marker, |_x: Marker| Value::Marker),
+        V::Remove => typed!(Remove, |_x: Remove| Value::Remove),
+        V::Na => typed!(Na, |_x: Na| Value::Na),
+        V::Num(..) => typed!(Number, Value::Number),
+        V::Date(..) => typed!(Date, Value::Date),
+        V::Time(..) => typed!(Time, Value::Time),
+        V::DateTime(..) => typed!(DateTime, Value::DateTime),
+        V::Ref(..) => typed!(Ref, Value::Ref),
+        V::Uri(..) => typed!(Uri, Value::Uri),
+        V::Sym(..) => typed!(Symbol, Value::Symbol),
+        V::Str(..) => typed!(Str, Value::Str),
+        V::Coord(..) => typed!(Coord, Value::Coord),
+        V::XStr(..) => typed!(XStr, Value::XStr),
+        V::Dict(..) => typed!(Dict, Value::Dict),
+        V::Grid(..) => typed!(Grid, Value::Grid),
+        V::List(..) => typed!(Vec<Value>, Value::List),
+        _ => return Ok(()),
+    };
+    for (how, o) in outs {
+        match o {
+            Err(p) => return Err(("d2-typed-decode-panic".into(), format!("{how}: {p}; text={text}"))),
+            Ok(Err(e)) => return Err(("d2-typed-decode-error".into(), format!("{how}: {e}; text={text}"))),
+            Ok(Ok(b)) => same(v, &from_lib(&b)).map_err(|d| ("d2-typed-decoded-other-value".to_string(), format!("{how}: {d}; text={text}")))?,
+        }
+    }
+    Ok(())
+}
+
+static THOROUGH: std::sync::atomic::AtomicBool = std::sync::atomic::AtomicBool::new(false);
+
 fn one_spelling(v: &V, ch: &mut Chooser) -> (String, Vec<&'static str>, Verdict) {
     let (text, dev) = hr::write(v, ch);
     // self-check of the reference: emitted text is JSON (serde_json as the trusted JSON reader),
@@ -260,6 +319,8 @@ fn one_spelling(v: &V, ch: &mut Chooser) -> (String, Vec<&'static str>, Verdict)
         Ok(Err(e)) => Err(("d2-decode-error".to_string(), format!("{e}; text={text}"))),
         Ok(Ok(b)) => same(v, &from_lib(&b)).map_err(|d| ("d2-decoded-other-value".to_string(), format!("{d}; text={text}"))),
     };
+    let thorough = THOROUGH.load(std::sync::atomic::Ordering::Relaxed);
+    let verdict = if dev.len() <= 1 || thorough { verdict.and_then(|_| typed_decode_agrees(&text, v, dev.is_empty() || thorough)) } else { verdict };
     (text, dev, verdict)
 }
 
@@ -323,8 +384,9 @@ fn check_spellings(v: &V, bound: Option<usize>, cap: u64, local: &mut Local) {
 }
 
 pub fn run(tier: Tier) -> i32 {
+    THOROUGH.store(tier == Tier::Thorough, std::sync::atomic::Ordering::Relaxed);
     let mut run = Run::new("C05", tier, "model_checking");
-    run.rule = "reference Hayson mapping (DESIGN Appendix A.2). Direction 1: serde_json::to_value / to_string of every value of Σ ∪ U must be the Hayson representation (right _kind, exact member names, plain JSON for null/bool/string/unit-less finite number/list/dict, optional members optional). Direction 2: every document the reference writer produces with <= b deviations (choice points: member order of every object — all permutations up to 4 members, rotations+reversal beyond —, \"_kind\":\"dict\" present/absent, grid meta absent / {} / with ver, column meta absent / {}, tz present/absent for UTC, Z vs +00:00, fraction digits padded, every number as integer/.0/exponent e|E|e+|E-/shifted, every string character literal vs \\uXXXX (surrogate pairs) vs short escape, white space) is decoded by libhaystack and must give the value. states = values, transitions = documents executed = traces validated".into();
+    run.rule = "typed entry points: every spelling is also decoded as the typed value of its kind (from_str / from_slice / from_reader::<T>, Option<T>, Vec<T> element, from_value::<T> with sorted members) and must give the same value (quick: from_str::<T> and from_value::<T> for documents with <= 1 deviation, all six for the canonical document; thorough: all six for all documents). reference Hayson mapping (DESIGN Appendix A.2). Direction 1: serde_json::to_value / to_string of every value of Σ ∪ U must be the Hayson representation (right _kind, exact member names, plain JSON for null/bool/string/unit-less finite number/list/dict, optional members optional). Direction 2: every document the reference writer produces with <= b deviations (choice points: member order of every object — all permutations up to 4 members, rotations+reversal beyond —, \"_kind\":\"dict\" present/absent, grid meta absent / {} / with ver, column meta absent / {}, tz present/absent for UTC, Z vs +00:00, fraction digits padded, every number as integer/.0/exponent e|E|e+|E-/shifted, every string character literal vs \\uXXXX (surrogate pairs) vs short escape, white space) is decoded by libhaystack and must give the value. states = values, transitions = documents executed = traces validated".into();
     run.assume("DESIGN Appendix A.2 is the Hayson encoding (written from memory of the Project Haystack documentation)");
     run.assume("serde_json is the trusted JSON reader for the reference writer's self-check");
     crate::engine::quiet_panics();
@@ -343,7 +405,11 @@ pub fn run(tier: Tier) -> i32 {
     });
     run.absorb(l);
 
-    let sc2 = u::scalars(Tier::Quick);
+    // the digit-shape family: one deviation per document (thorough: two)
+    let shaped = u::digit_shape_values();
+    let l = par_for(shaped.len(), |i, local| check_spellings(&shaped[i], Some(tier.pick(1, 2)), 2_000_000, local));
+    run.absorb(l);
+    let sc2 = u::scalars_classic(Tier::Quick);
     let l = par_for(sc2.len(), |i, local| {
         check_spellings(&sc2[i], Some(2), 2_000_000, local);
         let mut ch = Chooser::replaying(vec![]);
